@@ -676,6 +676,42 @@ impl Sys {
             self.sh.foreign.lock().unwrap().insert("scan != model bag after op (C12/C13 oracle)".to_string());
             return Step { next: None, outcome: "scan-model-mismatch".into(), violations: vec![] };
         }
+        if st.blob {
+            // the blobs the table holds must still be the ones written (owned by C13; a state where an op
+            // changed blob contents is recorded as a foreign finding and not explored)
+            let sizes = vds::run_catch(async {
+                let mut sc = ds.scan();
+                sc.project(&["uid", "blob"])?;
+                sc.scan_in_order(true);
+                let bs: Vec<RecordBatch> = sc.try_into_stream().await?.try_collect().await?;
+                lance::Result::Ok(cells::batches_rows(&bs))
+            });
+            let mut bad = None;
+            if let Ok(Ok(rows)) = &sizes {
+                for row in rows {
+                    let uid = row[0].as_i64().unwrap_or(-1) as i32;
+                    let want = match blob_bytes(uid) {
+                        None => (Some(1u64), 0u64),
+                        Some(b) if b.is_empty() => (Some(0), 0),
+                        Some(b) => (None, b.len() as u64),
+                    };
+                    if let Cell::St(f) = &row[1] {
+                        let pos = f.iter().find(|x| x.0 == "position").and_then(|x| if let Cell::U(p) = x.1 { Some(p) } else { None });
+                        let size = f.iter().find(|x| x.0 == "size").and_then(|x| if let Cell::U(p) = x.1 { Some(p) } else { None });
+                        if size != Some(want.1) || (want.0.is_some() && pos != want.0) {
+                            bad = Some(format!("uid {uid}: descriptor (position {pos:?}, size {size:?}), written blob has {} bytes", want.1));
+                        }
+                    }
+                }
+            } else {
+                bad = Some("blob column cannot be scanned".to_string());
+            }
+            if let Some(b) = bad {
+                let last = st.path.last().map(|o| format!("{o:?}")).unwrap_or_default();
+                self.sh.foreign.lock().unwrap().insert(format!("C13: blob contents changed by {last}: {b}"));
+                return Step { next: None, outcome: "blob-content-changed".into(), violations: vec![] };
+            }
+        }
         if let Some(prev) = prev_ref_ids {
             for id in &prev.ids {
                 if !r.ids.contains(id) {
